@@ -200,6 +200,26 @@ fn c11(seed: u64, thorough: bool) -> Scenario {
             g.world.args.ignore.push(format!(".{d}/**"));
         }
     }
+    // an --ignore glob that matches a dotted DIRECTORY's own path (`*.2` for `v1.2/`) but none of
+    // the files: ignoring is decided on file paths, a matching ancestor hides nothing
+    if g.rng.chance(1, 5) {
+        let mut sufs: Vec<String> = Vec::new();
+        for f in &g.world.files {
+            let comps: Vec<&str> = f.path.split('/').collect();
+            for d in &comps[..comps.len() - 1] {
+                if let Some((_, suf)) = d.rsplit_once('.') {
+                    if !suf.is_empty() && !suf.contains(['[', '{', '\\', '*', '?']) {
+                        sufs.push(suf.to_string());
+                    }
+                }
+            }
+        }
+        sufs.retain(|suf| !g.world.files.iter().any(|f| f.path.ends_with(&format!(".{suf}"))));
+        if !sufs.is_empty() {
+            let suf = g.rng.pick(&sufs).clone();
+            g.world.args.ignore.push(format!("*.{suf}"));
+        }
+    }
     g.world.args.long_flags = g.rng.chance(1, 2);
     // level B: report paths must stay root-relative wherever the tool is started (only for
     // worlds without scripts, whose paths are cwd-relative by design)
